@@ -2,6 +2,7 @@ package main
 
 import (
 	"fmt"
+	"strings"
 	"sort"
 	"time"
 	"go/token"
@@ -145,7 +146,7 @@ func (c *Ctx) oblige(st *State, kind, text string, pos token.Pos, cond *Term) {
 		c.assume(pc, cond)
 		return
 	}
-	if c.noSafety && !contractKind(kind) && kind != "vacuity" {
+	if c.noSafety && (!contractKind(kind) || strings.HasPrefix(kind, "pre(")) && kind != "vacuity" {
 		c.assume(pc, cond)
 		return
 	}
